@@ -119,6 +119,9 @@ namespace cs
                     p.add("base", {(long long)r.below(2), (long long)r.below(2)});
                     break;
                 case 3:
+                    if (r.chance(1, 2))
+                        p.add("mkx", {(long long)r.below(6), (long long)r.below(17), (long long)r.below(20)});
+                    else
                     p.add("dl", {(long long)r.below(3), (long long)r.below(3), (long long)r.below(9)});
                     break;
                 default:
